@@ -807,6 +807,63 @@ type Analysis struct {
 	Start     map[*ssa.BasicBlock]*State
 	Problems  []string
 	NPaths    int
+	// Assumed: panic sites inside assertion helpers that were taken as never firing
+	Assumed []ssa.Instruction
+}
+
+func (a *Analysis) noteAssumed(in ssa.Instruction) {
+	for _, x := range a.Assumed {
+		if x == in {
+			return
+		}
+	}
+	a.Assumed = append(a.Assumed, in)
+}
+
+var assertHelperCache sync.Map
+
+// isAssertionHelper: fn is an unexported function without results whose whole body is a guard around one panic -
+// `func invariant(ok bool, msg string) { if !ok { panic(msg) } }` and its like: no store, send, go, defer, no call
+// except to format the message.
+func isAssertionHelper(fn *ssa.Function) bool {
+	if fn == nil || fn.Signature.Results().Len() != 0 || len(fn.Blocks) == 0 || len(fn.Blocks) > 6 {
+		return false
+	}
+	if v, hit := assertHelperCache.Load(fn); hit {
+		return v.(bool)
+	}
+	res := func() bool {
+		if fn.Object() != nil && fn.Object().Exported() {
+			return false
+		}
+		nPanic, nIf, nInstr := 0, 0, 0
+		for _, b := range fn.Blocks {
+			for _, in := range b.Instrs {
+				nInstr++
+				switch in := in.(type) {
+				case *ssa.Panic:
+					nPanic++
+				case *ssa.If:
+					nIf++
+				case *ssa.Store, *ssa.Send, *ssa.Go, *ssa.Defer, *ssa.MapUpdate, *ssa.Select, *ssa.RunDefers:
+					return false
+				case *ssa.Call:
+					callee := in.Call.StaticCallee()
+					if callee == nil || callee.Pkg == nil {
+						return false
+					}
+					switch callee.Pkg.Pkg.Path() {
+					case "fmt", "errors", "strings", "strconv":
+					default:
+						return false
+					}
+				}
+			}
+		}
+		return nPanic == 1 && nIf >= 1 && nInstr <= 24
+	}()
+	assertHelperCache.Store(fn, res)
+	return res
 }
 
 // AllPaths returns every segment, entry first, then headers by block index.
@@ -1706,6 +1763,13 @@ func (ex *explorer) run(st *State, blk *ssa.BasicBlock, idx int, prev *ssa.Basic
 			prev = nil
 			continue
 		case *ssa.Panic:
+			if len(st.frames) > 1 && isAssertionHelper(st.top().fn) {
+				// the library's own assertion helper (`invariant(cond, msg)`): the asserted condition is taken as a
+				// fact - the firing path is not explored, the site is recorded as an assumption of the analysis
+				ex.an.noteAssumed(in)
+				ex.budget--
+				return
+			}
 			ex.emit(st, Step{Kind: KPanic, Instr: in, A: []*Term{ex.eval(st, in.X)}})
 			ex.budget--
 			ex.finish(st, &Path{Exit: ExitPanic})
